@@ -299,3 +299,75 @@ Section Oracles.
         (sort_by (fun cp => codehash (fst cp)) progs)
     end.
 End Oracles.
+
+(* ---------------------------------------------------------------- exemptions *)
+
+(* checkTransactionSignature returns nil before looking at any program for
+   some (transaction type, payload version) pairs.  The table of exempt pairs
+   is not written here: it is regenerated on every run from the code under
+   test (coq/gen/C05_exempt.v: every type x every payload version 0..255 is
+   probed through the real function; rows are (type, lo, hi) version ranges),
+   together with two facts per exempt type:
+     no_inputs        CheckTransactionInput rejects a transaction with an input
+     restricts_inputs SpecialContextCheck of the type contains a loop over
+                      t.references that tests ProgramHash and returns an error
+                      (source fact, go/ast over core/transaction).            *)
+Definition exempt (rows : list (Z * Z * Z)) (ty v : Z) : bool :=
+  existsb (fun r => let '(t, lo, hi) := r in (t =? ty) && (lo <=? v) && (v <=? hi)) rows.
+
+Inductive reason := NoInputs | InputsRestricted | KnownUnrestricted.
+
+(* Why an exemption does not contradict the property.  Everything not listed
+   must go through RunPrograms.
+   0x14 NextTurnDPOSInfo               spends nothing (inputs forbidden)
+   0x2b CRAssetsRectify                inputs must be the CR assets address
+   0x2a CRCProposalRealWithdraw        inputs must be the CR expenses address
+                                       (since fix 73ccc639)
+   0x29 CRCProposalWithdraw, version 0 inputs must be the CR expenses address
+                                       (version 1 and every other version is
+                                       signed like an ordinary transaction)
+   0x61 DposV2ClaimRewardRealWithdraw, 0x65 VotesRealWithdraw
+                                       inputs are NOT restricted by their
+                                       SpecialContextCheck: recorded as known
+                                       findings, listed here so that nothing
+                                       else can hide behind them.            *)
+Definition allowed_reason (ty v : Z) : option reason :=
+  if ty =? 20 then Some NoInputs
+  else if ty =? 43 then Some InputsRestricted
+  else if ty =? 42 then Some InputsRestricted
+  else if (ty =? 41) && (v =? 0) then Some InputsRestricted
+  else if (ty =? 97) || (ty =? 101) then Some KnownUnrestricted
+  else None.
+
+Fixpoint fact_of (facts : list (Z * bool * bool)) (ty : Z) : bool * bool :=
+  match facts with
+  | [] => (false, false)
+  | (t, a, b) :: r => if t =? ty then (a, b) else fact_of r ty
+  end.
+
+Definition justified (facts : list (Z * bool * bool)) (ty v : Z) : bool :=
+  match allowed_reason ty v with
+  | Some NoInputs => fst (fact_of facts ty)
+  | Some InputsRestricted => snd (fact_of facts ty)
+  | Some KnownUnrestricted => true
+  | None => false
+  end.
+
+Definition all_exemptions_justified (rows : list (Z * Z * Z)) (facts : list (Z * bool * bool)) : bool :=
+  forallb (fun ty => forallb (fun v => implb (exempt rows ty v) (justified facts ty v))
+                             (map Z.of_nat (seq 0 256)))
+          (map Z.of_nat (seq 0 256)).
+
+Section Typed.
+  Variable codehash : bytes -> bytes.
+  Variable point_ok : bytes -> bool.
+  Variable verify_ecdsa : bytes -> bytes -> bytes -> bool.
+  Variable verify_schnorr : bytes -> bytes -> bytes -> bool.
+  Variable keyhash : bytes -> bytes.
+
+  (* checkTransactionSignature for any transaction type *)
+  Definition check_tx_signature_typed (rows : list (Z * Z * Z)) (ty v : Z) (data : bytes)
+             (refs : list bytes) (attrs : list (Z * bytes)) (progs : list (bytes * bytes)) : bool :=
+    if exempt rows ty v then true
+    else check_tx_signature codehash point_ok verify_ecdsa verify_schnorr keyhash true data refs attrs progs.
+End Typed.
